@@ -216,8 +216,8 @@ class C06(Machine):
                 if "from" in b:
                     # RecurrencePlot on (a row of) the array the Surrogates
                     # object was given
-                    X = [a for k_, a in SP._capture
-                         if k_ == "surrogates-original-data"][-1]
+                    X = [c_[1] for c_ in SP._capture
+                         if c_[0] == "surrogates-original-data"][-1]
                     mm = dict(model)
                     kw = spec.kw(mm)
                     o = C.call(lambda: spec.cls()(X[0], **kw))
@@ -236,9 +236,17 @@ class C06(Machine):
         if tp:
             R.probe(tp)
         # caller-owned arrays and their byte snapshots
-        held = [(k_, a, a.tobytes(), a.dtype.str, a.shape)
-                for k_, a in SP._capture if isinstance(a, np.ndarray)]
+        held = [c_ for c_ in SP._capture if isinstance(c_[1], np.ndarray)]
         SP._capture = None
+        # constructing the objects must leave the caller's arrays alone
+        for hi, (k_, a, b, dt, sh) in enumerate(held):
+            if a.tobytes() != b or a.dtype.str != dt or a.shape != sh:
+                self._viol(R, objs[-1]["spec"], "constructor",
+                           "caller-array", k_,
+                           f"constructing {objs[-1]['spec'].name} changed "
+                           f"the caller's '{k_}' array (dtype {dt}, shape "
+                           f"{sh} -> {a.shape})")
+                held[hi] = (k_, a, a.tobytes(), a.dtype.str, a.shape)
         # shared Data / Grid objects with reference answers from isolated
         # copies
         shared_objs = []
